@@ -23,6 +23,7 @@ import (
 	"verif/harness/internal/c18"
 	"verif/harness/internal/c19"
 	"verif/harness/internal/c20"
+	"verif/harness/internal/pipe"
 )
 
 func main() {
@@ -45,6 +46,8 @@ func main() {
 		os.Exit(c14.Main(os.Args[2:]))
 	case "c15":
 		os.Exit(c15.Main(os.Args[2:]))
+	case "pipe":
+		os.Exit(pipe.Main(os.Args[2:]))
 	case "c20":
 		os.Exit(c20.Main(os.Args[2:]))
 	case "c18":
